@@ -454,7 +454,7 @@ pub fn enumerate(thorough: bool, seed: u64, f: &(dyn Fn(&Program, u64, &str, &mu
     bounds.insert("method_level".into(), json!(format!("{} documented (method, level) pairs x {} content classes", ml.len(), n_content)));
 
     // (4b) content sizes at and around internal buffer boundaries, every method, compressible and not
-    let sizes: Vec<usize> = vec![2, 15, 16, 255, 256, 257, 4095, 4096, 4097, 8191, 8192, 16384, 32767, 32768, 32769, 65535, 65536, 65537, 131071, 131072, 131073, 262144];
+    let sizes: Vec<usize> = vec![2, 15, 16, 255, 256, 257, 4095, 4096, 4097, 8191, 8192, 16384, 32767, 32768, 32769, 65535, 65536, 65537, 131071, 131072, 131073, 262144, 1048575, 1048577, 1572864];
     let nsz = sizes.len();
     let s = par_for((nsz * 4 * 2) as u64, 1, |i, st| {
         let i = i as usize;
@@ -531,7 +531,7 @@ pub fn run(args: &Args) -> i32 {
     let thorough = args.tier.thorough();
     ctx.rule = "E-PROD over writer programs: (1) length-1 full product kind x content x name x method/level x large x perm x time; \
         (2) every 9-bit permission value x 3 kinds; (3) every date word x 3 time words and 3 date words x every time word; \
-        (4) every documented method/level pair x every content class, and 22 content sizes at internal buffer boundaries (255..262144) x every method x {repeating, incompressible}; (5) comment variants; (6) all length-2 and length-3 (thorough: 4) \
+        (4) every documented method/level pair x every content class, and 25 content sizes at internal buffer boundaries (2..1.5 MiB, each written in ONE write call) x every method x {repeating, incompressible}; (5) comment variants; (6) all length-2 and length-3 (thorough: 4) \
         entry lists over reduced alphabets. Each program is executed twice (finish / drop) on the real writer and read back with the real \
         seekable reader; the program is the reference model. distinct_nontrivial = distinct archive byte strings produced (hash set)."
         .into();
